@@ -93,20 +93,30 @@ func gzipMembers(b []byte, split []int) []byte {
 	return buf.Bytes()
 }
 
-// buildTarSplit is buildTar with the outer gzip stream written as several members.
-func buildTarSplit(es []tarEntry, gz bool, split []int) ([]byte, error) {
-	if !gz || len(split) == 0 {
-		return buildTar(es, gz)
+// buildTarFmt is buildTar with a header format (0 PAX, 1 chosen by archive/tar, 2 GNU) and
+// the outer gzip stream optionally written as several members.
+func buildTarFmt(es []tarEntry, gz bool, split []int, format int) ([]byte, error) {
+	f := tar.FormatPAX
+	switch format {
+	case 1:
+		f = tar.FormatUnknown
+	case 2:
+		f = tar.FormatGNU
 	}
-	plain, err := buildTar(es, false)
+	if !gz || len(split) == 0 {
+		return buildTarF(es, gz, f)
+	}
+	plain, err := buildTarF(es, false, f)
 	if err != nil {
 		return nil, err
 	}
 	return gzipMembers(plain, split), nil
 }
 
-// buildTar serialises entries in the given order.
-func buildTar(es []tarEntry, gz bool) ([]byte, error) {
+// buildTar serialises entries in the given order (PAX headers).
+func buildTar(es []tarEntry, gz bool) ([]byte, error) { return buildTarF(es, gz, tar.FormatPAX) }
+
+func buildTarF(es []tarEntry, gz bool, format tar.Format) ([]byte, error) {
 	var buf bytes.Buffer
 	var w io.Writer = &buf
 	var zw *gzip.Writer
@@ -116,7 +126,7 @@ func buildTar(es []tarEntry, gz bool) ([]byte, error) {
 	}
 	tw := tar.NewWriter(w)
 	for _, e := range es {
-		h := &tar.Header{Name: e.Name, Typeflag: e.Type, ModTime: fixedTime, Format: tar.FormatPAX}
+		h := &tar.Header{Name: e.Name, Typeflag: e.Type, ModTime: fixedTime, Format: format}
 		switch e.Type {
 		case tar.TypeDir:
 			h.Mode = 0o755
